@@ -8,5 +8,6 @@ CONSTANTS
 INVARIANT ValueRoundTrip
 INVARIANT FileRoundTrip
 INVARIANT WrittenInDomain
+INVARIANT Framing
 CHECK_DEADLOCK FALSE
 POSTCONDITION Export
